@@ -124,6 +124,7 @@ struct Shared {
   close_started: Vec<Mutex<Option<Instant>>>,
   close_done: Vec<Mutex<Option<Instant>>>,
   close_ms_max: std::sync::atomic::AtomicU64,
+  monitors: Mutex<Vec<rzmq::socket::MonitorReceiver>>,
   term_started: Mutex<Option<Instant>>,
   term_done: Mutex<Option<Instant>>,
   actors_at_term: Mutex<Option<u64>>,
@@ -245,6 +246,14 @@ async fn run_op(sh: Arc<Shared>, o: Vec<u64>) -> (u64, String) {
         5 => fmt(sock.set_option(opt::RCVHWM, 100i32).await),
         6 => fmt(sock.get_option(opt::LINGER).await.map(|_| ())),
         7 => fmt(sock.monitor_default().await.map(|_| ())),
+        // a monitor with a ONE-event channel whose receiver is kept alive and never read
+        19 => match sock.monitor(1).await {
+          Ok(rx) => {
+            sh.monitors.lock().unwrap().push(rx);
+            (0, String::new())
+          }
+          Err(e) => (1, format!("{e}")),
+        },
         16 => fmt(sock.disconnect(&sh.eps[a as usize]).await),
         17 => fmt(sock.unbind(&sh.eps[a as usize]).await),
         8 => {
@@ -340,6 +349,7 @@ async fn hist(c: &Value, rt_name: String) -> Value {
     close_started: (0..n).map(|_| Mutex::new(None)).collect(),
     close_done: (0..n).map(|_| Mutex::new(None)).collect(),
     close_ms_max: std::sync::atomic::AtomicU64::new(0),
+    monitors: Mutex::new(Vec::new()),
     term_started: Mutex::new(None),
     term_done: Mutex::new(None),
     actors_at_term: Mutex::new(None),
